@@ -291,3 +291,14 @@ package pilosa
 //@   requires c != nil
 //@   ensures result == nil || (haskey(c.jobs, id) && result == c.jobs[id] && !fresh(result))
 //@   modifies nothing
+
+// Cluster messages off the wire (gossip NotifyMsg has no recover): the type byte and
+// the body length are chosen by the sender.
+//@ contract getMessage props C06
+//@   ensures true
+//@ contract (*API).ClusterMessage props C06
+//@   requires api != nil && api.server != nil && api.cluster != nil
+//@ contract (*cluster).State props C06
+//@   requires c != nil
+//@   ensures result == c.state
+//@   modifies nothing
